@@ -105,7 +105,13 @@ func (c *compressor) decompressCellblocks(b []byte) ([]byte, error) {
 			return nil, fmt.Errorf("failed to read uncompressed block length: %w", err)
 		}
 
-		out = slices.Grow(out, int(uncompressedBlockLen))
+		// the length comes from the wire, don't reserve more than the
+		// remaining compressed bytes can plausibly decompress into
+		if hint := uint64(len(b)) * 32; uint64(uncompressedBlockLen) < hint {
+			out = slices.Grow(out, int(uncompressedBlockLen))
+		} else {
+			out = slices.Grow(out, int(hint))
+		}
 
 		// read and decompress encoded chunks until whole block is read
 		var uncompressedSoFar uint32
